@@ -201,19 +201,28 @@ enum Plan {
 }
 
 struct Prepared {
-    /// per writer, per write: batch, schema id, memory size, WAL payload length, (row id, ts)
-    batches: Vec<Vec<(RecordBatch, u64, usize, usize, Vec<(u64, i64)>)>>,
+    /// per writer, per write: batch, schema id, memory size, (WAL payload length, memory size of the
+    /// batch decoded back from the payload), (row id, ts)
+    batches: Vec<Vec<(RecordBatch, u64, usize, (usize, usize), Vec<(u64, i64)>)>>,
     interner: Interner,
 }
 
-fn ipc_len(b: &RecordBatch) -> usize {
+/// (length of the WAL payload of `b`, get_array_memory_size of the batch ensure_wal decodes from it)
+fn ipc_len(b: &RecordBatch) -> (usize, usize) {
     let mut buffer = Vec::new();
     {
         let mut w = arrow::ipc::writer::StreamWriter::try_new(&mut buffer, &b.schema()).unwrap();
         w.write(b).unwrap();
         w.finish().unwrap();
     }
-    buffer.len()
+    let len = buffer.len();
+    let mut rsize = 0;
+    if let Ok(reader) = arrow::ipc::reader::StreamReader::try_new(std::io::Cursor::new(buffer), None) {
+        for x in reader.flatten() {
+            rsize += x.get_array_memory_size();
+        }
+    }
+    (len, rsize)
 }
 
 fn prepare(scn: &Scenario) -> Prepared {
@@ -243,8 +252,8 @@ fn model_head(scn: &Scenario, p: &Prepared) -> String {
     for w in &p.batches {
         let bs: Vec<String> = w
             .iter()
-            .map(|(_, sid, size, plen, rows)| {
-                format!("{}:{}:{}:{}", sid, size, plen, rows.iter().map(|(id, ts)| format!("{},{}", id, ts)).collect::<Vec<_>>().join(","))
+            .map(|(_, sid, size, (plen, rsize), rows)| {
+                format!("{}:{}:{}:{}:{}", sid, size, plen, rsize, rows.iter().map(|(id, ts)| format!("{},{}", id, ts)).collect::<Vec<_>>().join(","))
             })
             .collect();
         f.push(format!("W {}", bs.join(";")));
@@ -504,12 +513,13 @@ async fn run_impl_async(scn: &Scenario, prep: &mut Prepared, plan: Plan) -> Impl
                         h.abort();
                         let _ = h.await;
                     }
-                    let subs_now: Vec<JoinHandle<()>> = subs.lock().unwrap().drain(..).collect();
-                    for h in subs_now {
+                    if let Mode::Recovering(h) = std::mem::replace(&mut mode, Mode::Down) {
                         h.abort();
                         let _ = h.await;
                     }
-                    if let Mode::Recovering(h) = std::mem::replace(&mut mode, Mode::Down) {
+                    // only now the parked pause points (they hold the resume handles of dead tasks)
+                    let subs_now: Vec<JoinHandle<()>> = subs.lock().unwrap().drain(..).collect();
+                    for h in subs_now {
                         h.abort();
                         let _ = h.await;
                     }
@@ -800,7 +810,7 @@ fn gen_scenario(rng: &mut Rng, report: &mut Report) -> Scenario {
         })
         .collect();
     let sizes: Vec<usize> = writers.iter().flatten().map(|s| build_batch(s).get_array_memory_size()).collect();
-    let wal_sizes: Vec<usize> = writers.iter().flatten().map(|s| ipc_len(&build_batch(s)) + WAL_HEADER_LEN).collect();
+    let wal_sizes: Vec<usize> = writers.iter().flatten().map(|s| ipc_len(&build_batch(s)).0 + WAL_HEADER_LEN).collect();
     let avg = (sizes.iter().sum::<usize>() / sizes.len().max(1)).max(1);
     let wavg = (wal_sizes.iter().sum::<usize>() / wal_sizes.len().max(1)).max(1);
     let total_rows: usize = writers.iter().flatten().map(|b| b.rows.len()).sum();
@@ -879,10 +889,20 @@ fn main() {
         cases.push(("random".to_string(), scn, Plan::Generate(r.fork())));
     }
 
-    for (origin, scn, plan) in cases {
+    let verbose = args.get("verbose").is_some();
+    let limit: usize = args.get("limit").and_then(|s| s.parse().ok()).unwrap_or(usize::MAX);
+    let t_all = std::time::Instant::now();
+    for (ci, (origin, scn, plan)) in cases.into_iter().enumerate() {
+        if ci >= limit {
+            break;
+        }
+        let t0 = std::time::Instant::now();
         let (head, out) = run_impl(&scn, plan);
         report.impl_runs += 1;
         let line = format!("{}|S {}", head, show_sched(&out.sched));
+        if verbose {
+            eprintln!("case {} {} steps={} {:?} total {:?}", ci, origin, out.sched.len(), t0.elapsed(), t_all.elapsed());
+        }
         let crashes = out.stats.iter().find(|s| s.0 == "crashes").map(|s| s.1).unwrap_or(0);
         let overl = out.stats.iter().find(|s| s.0 == "overlapped_steps").map(|s| s.1).unwrap_or(0);
         let ffail = out.stats.iter().find(|s| s.0 == "failed_flush_requests").map(|s| s.1).unwrap_or(0);
